@@ -21,7 +21,7 @@ Cross-radix theorems: `NormL.CrossCtx bits ab rb rs 0 H a` = `bits ∈ {64,128}`
 -/
 -/
 import Poulpy.Lemmas.NormFused
-import Poulpy.Lemmas.NormCross7
+import Poulpy.Lemmas.NormDispatch
 import Poulpy.Lemmas.NormCodec
 
 namespace C08
@@ -762,26 +762,8 @@ theorem normalize_value {ab rb rs : Nat} {H : Int} {a : List Int}
     out.length = rs ∧ (∀ d ∈ out, |d| ≤ 2 ^ rb - 1) ∧
     TorusNear (valI rb out) (rb * rs) (valI ab a * 2 ^ off.toNat) (ab * a.length + (-off).toNat) ∧
     (((ab * a.length : Nat) : Int) ≤ ((rb * rs : Nat) : Int) + (splitOffset ab off).2 * ab →
-      TorusEq (valI rb out) (rb * rs) (valI ab a * 2 ^ off.toNat) (ab * a.length + (-off).toNat)) := by
-  unfold normalizeCoef at h
-  by_cases hr : rb = ab
-  · subst hr
-    simp only [if_true, Option.some.injEq] at h
-    subst h
-    have hv := normalize_inter_value c.headRoomH rs off a c.ha
-    have hb1 : 1 ≤ rb := c.hrb1
-    obtain ⟨hso, _⟩ := splitOffset_spec hb1 off
-    refine ⟨hv.1, ?_, hv.2.2.1, fun hx => hv.2.2.2 ?_⟩
-    · intro d hd
-      have := (hv.2.1 d hd).abs_le
-      have h2 := half_le_full hb1
-      have h3 : (1 : Int) ≤ 2 ^ (rb - 1) := by
-        have := two_pow_le (Nat.zero_le (rb - 1)); simpa using this
-      linarith
-    · have : (0 : Int) ≤ ((splitOffset rb off).1 : Int) := Int.natCast_nonneg _
-      linarith
-  · rw [if_neg hr] at h
-    exact normalize_cross_value c off h
+      TorusEq (valI rb out) (rb * rs) (valI ab a * 2 ^ off.toNat) (ab * a.length + (-off).toNat)) :=
+  normalizeCoef_value c off h
 
 /-- **NTT120 `vec_znx_big_normalize`, any radix pair, every offset** (`i128` accumulator limbs up to
 `2^126 − 8`) -/
@@ -790,29 +772,8 @@ theorem big_normalize128_value {ab rb rs : Nat} {H : Int} {a : List Int}
     out.length = rs ∧ (∀ d ∈ out, |d| ≤ 2 ^ rb - 1) ∧
     TorusNear (valI rb out) (rb * rs) (valI ab a * 2 ^ off.toNat) (ab * a.length + (-off).toNat) ∧
     (((ab * a.length : Nat) : Int) ≤ ((rb * rs : Nat) : Int) + (splitOffset ab off).2 * ab →
-      TorusEq (valI rb out) (rb * rs) (valI ab a * 2 ^ off.toNat) (ab * a.length + (-off).toNat)) := by
-  by_cases hr : rb = ab
-  · subst hr
-    have hb63 : rb ≤ 63 := by have := c.hrb; omega
-    have hi := big_normalize128_inter_value c.headRoomH hb63 rs off a c.ha
-    rw [hi.1] at h
-    simp only [Option.some.injEq] at h
-    subst h
-    have hv := normalize_inter_value c.headRoomH rs off a c.ha
-    have hb1 : 1 ≤ rb := c.hrb1
-    obtain ⟨hso, _⟩ := splitOffset_spec hb1 off
-    refine ⟨hv.1, ?_, hv.2.2.1, fun hx => hv.2.2.2 ?_⟩
-    · intro d hd
-      have := (hv.2.1 d hd).abs_le
-      have h2 := half_le_full hb1
-      have h3 : (1 : Int) ≤ 2 ^ (rb - 1) := by
-        have := two_pow_le (Nat.zero_le (rb - 1)); simpa using this
-      linarith
-    · have : (0 : Int) ≤ ((splitOffset rb off).1 : Int) := Int.natCast_nonneg _
-      linarith
-  · unfold bigNormalizeCoef128 at h
-    rw [if_neg hr] at h
-    exact normalize_cross_value c off h
+      TorusEq (valI rb out) (rb * rs) (valI ab a * 2 ^ off.toNat) (ab * a.length + (-off).toNat)) :=
+  bigNormalizeCoef128_value c off h
 
 /-- i128 context: limbs up to `2^120`, radix 2^20 → 2^12 -/
 private theorem ctx128 : CrossCtx 128 20 12 3 0 (2 ^ 120) [2 ^ 120 - 987654321, -5, 77] :=
